@@ -282,6 +282,12 @@ func runWorker(binPath, scratch string, env map[string]string, timeout time.Dura
 		}
 	}
 	wo := workerOut{stderr: lastLines(stderr.String(), 80)}
+	if werr != nil {
+		// keep the whole output of a worker that did not end well (the report shows its last lines only)
+		dir := filepath.Join(verifDir, "build", "worker-stderr", env["DSIM_HARNESS"])
+		os.MkdirAll(dir, 0o755)
+		os.WriteFile(filepath.Join(dir, fmt.Sprintf("%d.%d.log", time.Now().UnixNano(), os.Getpid())), stderr.Bytes(), 0o644)
+	}
 	f, err := os.Open(outFile)
 	if err == nil {
 		defer f.Close()
@@ -312,7 +318,7 @@ func runWorker(binPath, scratch string, env map[string]string, timeout time.Dura
 				Case     int       `json:"case"`
 			}
 			full := stderr.String()
-			if json.Unmarshal(sb, &s) == nil && s.Scenario != nil && (strings.Contains(full, "panic:") || strings.Contains(full, "fatal error:")) {
+			if json.Unmarshal(sb, &s) == nil && s.Scenario != nil && (strings.Contains(full, "panic:") || strings.Contains(full, "fatal error:") || strings.Contains(full, "\nSIGABRT") || strings.Contains(full, "\nSIGSEGV") || strings.Contains(full, "\nSIGBUS")) {
 				msg, fn := panicSite(full)
 				if strings.Contains(msg, "out of memory") {
 					s.Class = "oom-" + strings.TrimPrefix(s.Class, "panic-")
@@ -334,7 +340,8 @@ func panicSite(trace string) (msg, fn string) {
 	lines := strings.Split(trace, "\n")
 	fn = "unknown"
 	for i, l := range lines {
-		if strings.HasPrefix(l, "panic:") || strings.HasPrefix(l, "fatal error:") {
+		// (a signal raised outside Go code - abort() in a C library - is reported as "SIGABRT: abort")
+		if strings.HasPrefix(l, "panic:") || strings.HasPrefix(l, "fatal error:") || strings.HasPrefix(l, "SIGABRT") || strings.HasPrefix(l, "SIGSEGV") || strings.HasPrefix(l, "SIGBUS") {
 			if msg == "" {
 				msg = strings.TrimSpace(l)
 				if len(msg) > 160 {
@@ -478,6 +485,8 @@ func verifSeed() uint64 {
 }
 
 func check(prop, tier string) int {
+	// outputs of workers that ended badly in earlier checks (kept for diagnosis) are dropped
+	os.RemoveAll(filepath.Join(verifDir, "build", "worker-stderr", prop))
 	p, ok := props[prop]
 	if !ok {
 		fatal2("property %s has no dsim check (see MANIFEST.json not_applicable)", prop)
